@@ -506,6 +506,28 @@ pub fn load_event(ctx: &Ctx, a: &Value) -> (String, Value) {
                     let s = String::from_utf8_lossy(&bytes).replacen(from, to, 1);
                     bytes = s.into_bytes();
                 }
+                "trimcol" | "growcol" => {
+                    // column `arg` of every data row loses its last ';'-separated part / gains an empty one
+                    let text = String::from_utf8_lossy(&bytes).to_string();
+                    let mut out: Vec<String> = Vec::new();
+                    for (n, line) in text.lines().enumerate() {
+                        let mut cells: Vec<String> = line.split(',').map(|c| c.to_string()).collect();
+                        // (only rows of complex selectors: simple rows would already be rejected for an empty cell)
+                        if n > 0 && (arg as usize) < cells.len() && cells[arg as usize].contains(';') {
+                            let c = &cells[arg as usize];
+                            cells[arg as usize] = if op == "trimcol" {
+                                match c.rfind(';') {
+                                    Some(p) => c[..p].to_string(),
+                                    None => String::new(),
+                                }
+                            } else {
+                                format!("{};", c)
+                            };
+                        }
+                        out.push(cells.join(","));
+                    }
+                    bytes = (out.join("\n") + "\n").into_bytes();
+                }
                 "delete_file" => {
                     let _ = std::fs::remove_file(&target);
                     bytes.clear();
